@@ -739,6 +739,11 @@ class Analyzer(object):
             self.eval_expr(a, w, node)
         if name in NORETURN:
             return
+        # a scalar whose address is handed to a callee may be rewritten by it: what earlier tests established about it is gone
+        for a in args:
+            a = strip(a)
+            if a.k == 'Unary' and a.a['op'] == '&' and strip(a.c[0]).k == 'Ref' and strip(a.c[0]).a.get('id') and not is_ptr(strip(a.c[0]).t):
+                self.kill_preds(strip(a.c[0]).a['id'], w)
         # ---- release
         if name in BASE_FREE and args:
             self.release(args[0], w, node, e, name)
